@@ -156,6 +156,43 @@ let eval (w : string array) : float list =
     let runs = List.init nruns (fun _ -> let nfr = ni () in List.init nfr (fun _ -> let g1 = group () in let g2 = group () in (g1, g2))) in
     (* the list before the first run is irrelevant (every run starts with a rebuild): start from an empty one *)
     List.concat (pl_session fops (z_of_int freq) r0 rv (z_of_int en) (z_of_int ed) tol cell [] runs)
+  | "selfCoordNumPL" ->
+    (* pair list built at the first positions, value at the second *)
+    let r0 = nf () in let en = ni () in let ed = ni () in let tol = nf () in
+    let g = group () in let h = group () in
+    let pl = pl_build_pts fops r0 None (z_of_int en) (z_of_int ed) tol cell (self_pts g) in
+    [pl_value_pts fops pl r0 None (z_of_int en) (z_of_int ed) tol cell (self_pts h)]
+  | "coordNumCenterPL" ->
+    let r0 = nf () in let aniso = ni () <> 0 in let r0v = v3 () in
+    let en = ni () in let ed = ni () in let tol = nf () in
+    let g1 = group () in let g2 = group () in let h1 = group () in let h2 = group () in
+    let rv = if aniso then Some r0v else None in
+    let pl = pl_build_pts fops r0 rv (z_of_int en) (z_of_int ed) tol cell (center_pairs fops g1 g2) in
+    [pl_value_pts fops pl r0 rv (z_of_int en) (z_of_int ed) tol cell (center_pairs fops h1 h2)]
+  | "eigenvectorOpt" ->
+    let diff = ni () <> 0 in let norm = ni () <> 0 in
+    let n = ni () in
+    let rf = List.init n (fun _ -> v3 ()) in
+    let vec = List.init n (fun _ -> v3 ()) in
+    let g = group () in
+    let q = optimal_q (List.split (fit_pairs fops rf g)) in
+    let qd = if diff then optimal_q (center_pts fops vec, center_pts fops rf) else q in
+    [cv_eigenvector_v fops q rf (eigvec_prepare fops diff norm qd rf vec) g]
+  | "aspath" | "azpath" ->
+    (* lambda (<0: automatic), number of frames, atoms per frame, frames, group *)
+    let lam = nf () in
+    let nfr = ni () in let n = ni () in
+    let frames = List.init nfr (fun _ -> List.init n (fun _ -> v3 ())) in
+    let g = group () in
+    let qs = List.map (fun fr -> optimal_q (List.split (fit_pairs fops fr g))) frames in
+    let lambda =
+      if lam >= 0.0 then lam else begin
+        let rec pairs = function a :: (b :: _ as r) -> (a, b) :: pairs r | _ -> [] in
+        let rm = List.map (fun (f1, f2) ->
+          let q = optimal_q (center_pts fops f1, center_pts fops f2) in frame_pair_rmsd fops q f1 f2) (pairs frames) in
+        auto_lambda fops rm end in
+    let (sv, zv) = cv_apath fops lambda qs frames g in
+    [if w.(0) = "aspath" then sv else zv]
   | "fitcart" ->
     (* cartesian coordinates of a group fitted through fitg: rotate flag, reference, fitting group, group *)
     let rot = ni () <> 0 in
